@@ -357,6 +357,9 @@ def main():
     if args.replay:
         import json
         case = json.load(open(args.replay))
+        if case.get("op") == "split_siblings":
+            import c16sib
+            return common.replay_generic(args, c16sib.judge)
         rp = replay.Replay(release=(case.get("profile") == "release"))
         q = dict(case)
         q["op"] = "chardata"
@@ -373,7 +376,7 @@ def main():
     timeout_s = 120 if args.tier == "quick" else 900
     rep.bounds = {"content_len": "0..%d scalar values, every Unicode Char the factories accept" % Kn, "offset_count": "any 64-bit value",
                   "argument_len": "0..%d" % M, "profiles": ["debug (overflow panics)", "release (wraps)"],
-                  "outside": "the sibling insertion of split_text (item graph); longer contents; entity references inside the merged-text view"}
+                  "outside": "longer contents; entity references inside the merged-text view; split_text under an attribute parent"}
     rep.assumptions += [
         "std models of engine/sx/kstd.py (chars/collect/skip/take/split_off/drain/append, saturating_*, usize arithmetic with overflow per profile)",
         "the `check` closures call the real nom productions through the S-grammar (content, comment, cdsect)",
@@ -461,6 +464,12 @@ def main():
             rep.violations.append((oid, None, why))
     for res in results[:6]:
         rep.samples.append({"obligation": res["job"], "paths": res["paths"]})
+    # split_text: the sibling insertion (item graph of one element), one step from any valid state
+    try:
+        import c16sib
+        c16sib.obligations(rep, rp, args.tier, args.jobs)
+    except Exception as e:  # noqa
+        rep.inconclusive.append("split_text siblings: %s: %s" % (type(e).__name__, e))
     rp.close()
     if rp_rel:
         rp_rel.close()
